@@ -136,7 +136,17 @@ pub fn render(p: &ParamSpec, s: &Syntax) -> (String, Parameters) {
 }
 
 pub fn tmp_base() -> std::path::PathBuf {
-    let base = if std::path::Path::new("/dev/shm").is_dir() { std::path::PathBuf::from("/dev/shm") } else { std::env::temp_dir() };
+    // OPWV_TMP_DIR lets a driver (fuzz/run_fuzz.sh) own and remove the scratch area of processes that are killed rather than exiting
+    let base = match std::env::var("OPWV_TMP_DIR") {
+        Ok(d) => std::path::PathBuf::from(d),
+        Err(_) => {
+            if std::path::Path::new("/dev/shm").is_dir() {
+                std::path::PathBuf::from("/dev/shm")
+            } else {
+                std::env::temp_dir()
+            }
+        }
+    };
     base.join(format!("opwv-{}", std::process::id()))
 }
 
